@@ -398,6 +398,19 @@ theorem second_loss (p : Peer) (k : Loss) (he : p.est = true)
 theorem deferral_suppresses (p : Peer) (h : p.localRestarting = true) : needToAdvertise p = false := by
   simp [needToAdvertise, h]
 
+/-- … and that holds for EVERY way routes can be handed to the neighbour — a route change, a change of
+its RT membership (either way), its ROUTE-REFRESH, a soft reset out, a locally added or deleted path, a
+VRF path: in the model each of them goes through the one gate (`sendsOn`), which the deferral harness
+compares with what gobgp queues toward the peer for each trigger kind, deferred and not. -/
+theorem deferral_suppresses_every_trigger (p : Peer) (h : p.localRestarting = true) :
+    ∀ t : Trigger, sendsOn p t = false := by
+  intro t; simp [sendsOn, needToAdvertise, h]
+
+/-- once the deferral is over an established neighbour is served on every trigger -/
+theorem every_trigger_serves_after_deferral (p : Peer) (he : p.est = true) (h : p.localRestarting = false) :
+    ∀ t : Trigger, sendsOn p t = true := by
+  intro t; simp [sendsOn, needToAdvertise, he, h]
+
 /-- On entering ESTABLISHED the deferral ends at once only if no End-of-RIB is awaited from the peer;
 otherwise a deferral timer is started and `LocalRestarting` stays. -/
 theorem deferral_on_established (p : Peer) (h : p.localRestarting = true) (hpr : p.peerRestarting = false) :
